@@ -59,18 +59,49 @@ theorem C04_widths (product : Nat) (h : product = 1 ∨ product = 2) :
 
 /-! ## the digest -/
 
-/-- **Main theorem.** For every hash `H`, every image (a Go slice: length below 2^63), every launch
-    option with a supported product: sev.LaunchDigest returns `d` exactly when it accepts the image
-    (`Accepts`: at least one vCPU, the GUIDed table / reset block / SNP metadata parse to `rb`, `secs`,
-    the ROM is a whole number of pages and fits below 4 GiB, the metadata is well-formed, every kind is
-    known and every range page-aligned) and `d` is the SNP_LAUNCH_UPDATE chain of the specification over
-    the ROM pages, the declared sections in declared order and `vcpus` VMSA pages. -/
+/-- the products sev.LaunchDigest measures for — those with an entry in `bitWidth` — are Milan (enum value 1)
+    and Genoa (2), the products of the specification's width table -/
+theorem C04_supported_products (product : Nat) :
+    (genCfg.supported product = true ↔ product = 1 ∨ product = 2) ∧
+    ((Spec.SnpLaunch.productWidths.find? (fun p => p.1 == product)).isSome = true ↔ product = 1 ∨ product = 2) := by
+  have h := SnpDigest.supported_iff genCfg C04_cfg_is_spec product
+  refine ⟨h, ?_⟩
+  rw [← h, Cfg.supported, C04_cfg_is_spec.widths]
+
+/-- **Main theorem — total over launch options.** For every hash `H`, every image (a Go slice: length below
+    2^63), every vCPU count and EVERY product value: sev.LaunchDigest returns `d` exactly when the product is
+    supported (Milan or Genoa), it accepts the image (`Accepts`: at least one vCPU, the GUIDed table / reset block /
+    SNP metadata parse to `rb`, `secs`, the ROM is a whole number of pages and fits below 4 GiB, the metadata is
+    well-formed, every kind is known and every range page-aligned) and `d` is the SNP_LAUNCH_UPDATE chain of the
+    specification over the ROM pages, the declared sections in declared order and `vcpus` VMSA pages at the
+    product's highest page. -/
 theorem C04_digest_eq_spec (H : Bytes → Bytes) (hH : ∀ x, (H x).length = 48) (o : Opts)
-    (hp : o.product = 1 ∨ o.product = 2) (fw : Bytes) (hfw : fw.length < 2 ^ 63) (d : Bytes) :
+    (fw : Bytes) (hfw : fw.length < 2 ^ 63) (d : Bytes) :
     launchDigest H genCfg o fw = .ok d ↔
+      (o.product = 1 ∨ o.product = 2) ∧
       ∃ rb secs, Accepts o fw rb secs ∧
         d = Spec.SnpLaunch.snpSpec H fw (secs.map toSpec) rb.addr o.vcpus.toNat (genCfg.width o.product) :=
-  SnpDigest.launchDigest_iff H hH genCfg C04_cfg_is_spec o (C04_widths o.product hp).1 fw hfw d
+  SnpDigest.launchDigest_total H hH genCfg C04_cfg_is_spec o fw hfw d
+
+/-- **A product without a known address width is refused** — UNKNOWN (0), Turin (3, which `--snp_product`
+    accepts), any other number — for every image, every hash and every vCPU count ≥ 1, before the image is
+    looked at (the product-check fix; `C04_old_unsupported_product_*` say what happened before). -/
+theorem C04_rejects_unsupported_product (H : Bytes → Bytes) (o : Opts) (hp : o.product ≠ 1 ∧ o.product ≠ 2)
+    (hv : 1 ≤ o.vcpus) (fw : Bytes) : launchDigest H genCfg o fw = .err "product" :=
+  SnpExample.unsupported_rejected H o hp hv fw
+
+/-- … so no product value outside {Milan, Genoa} ever yields a digest (no hypothesis on vCPUs, image or hash) -/
+theorem C04_no_digest_for_unsupported_product (H : Bytes → Bytes) (o : Opts) (hp : o.product ≠ 1 ∧ o.product ≠ 2)
+    (fw : Bytes) (d : Bytes) : launchDigest H genCfg o fw ≠ .ok d := by
+  intro h
+  by_cases hv : 1 ≤ o.vcpus
+  · rw [C04_rejects_unsupported_product H o hp hv fw] at h; cases h
+  · unfold launchDigest at h; rw [if_pos (by omega)] at h; cases h
+
+/-- for Milan and Genoa the product check changes nothing: LaunchDigest is the measurement it always was -/
+theorem C04_supported_product_unchanged (H : Bytes → Bytes) (o : Opts) (hp : o.product = 1 ∨ o.product = 2) (fw : Bytes) :
+    launchDigest H genCfg o fw = launchDigestOld H genCfg o fw :=
+  SnpDigest.launchDigest_supported H genCfg o fw ((C04_supported_products o.product).1.mpr hp)
 
 /-- the ways the property names in which SNP metadata is malformed -/
 inductive Malformed (secs : List Sec) : Prop
@@ -85,9 +116,9 @@ inductive Malformed (secs : List Sec) : Prop
   | unknownKind (s : Sec) (h : s ∈ secs) (hm : ¬ KindKnown s)
 
 /-- Malformed SNP metadata is rejected with an error (never a digest, never a panic), one clause per
-    malformation named in the property. -/
+    malformation named in the property — for every product value. -/
 theorem C04_rejects_malformed (H : Bytes → Bytes) (hH : ∀ x, (H x).length = 48) (o : Opts)
-    (hp : o.product = 1 ∨ o.product = 2) (fw : Bytes) (hfw : fw.length < 2 ^ 63) (rb : ResetBlock) (secs : List Sec)
+    (fw : Bytes) (hfw : fw.length < 2 ^ 63) (rb : ResetBlock) (secs : List Sec)
     (hparse : extractFromFirmware true true fw = .ok (some rb, some secs)) (hm : Malformed secs) :
     ∃ e, launchDigest H genCfg o fw = .err e := by
   cases hl : launchDigest H genCfg o fw with
@@ -95,7 +126,7 @@ theorem C04_rejects_malformed (H : Bytes → Bytes) (hH : ∀ x, (H x).length = 
   | panic p => exact absurd hl (SnpBounds.launchDigest_no_panic H genCfg C04_cfg_is_spec o fw p)
   | ok d =>
     exfalso
-    obtain ⟨rb', secs', ha, _⟩ := (C04_digest_eq_spec H hH o hp fw hfw d).mp hl
+    obtain ⟨_, rb', secs', ha, _⟩ := (C04_digest_eq_spec H hH o fw hfw d).mp hl
     have := ha.parsed; rw [hparse] at this
     injection this with this; injection this with _ h2; injection h2 with h2
     subst h2
@@ -248,7 +279,7 @@ vector 0x0080B004) before the footer.  The harness builds the same bytes indepen
 the driver's (`c04 op=example`) and runs the real sev.LaunchDigest on them. -/
 
 open GceTcb.SevExample in
-/-- The hypothesis side of `C04_digest_eq_spec` is inhabited: the example image meets `Accepts` for every
+/-- The right-hand side of `C04_digest_eq_spec` is inhabited: the example image meets `Accepts` for every
     vCPU count ≥ 1 and any product — and its declared order is not the ascending one. -/
 theorem C04_example_accepts (o : Opts) (hv : 1 ≤ o.vcpus) :
     Accepts o exFw exRb exSecs ∧ exFw.length = 4096 ∧ exRb.addr = 0x80B004 ∧
@@ -342,68 +373,108 @@ theorem C04_sort_model_immaterial (sort : List Sec → List Sec) (h : SnpSection
     (secs : List Sec) : SnpSections.validateSectionsWith sort secs = validateSections secs :=
   SnpSections.validateSectionsWith_eq sort h secs
 
-/-! ## product values outside {Milan, Genoa}
+/-! ## product values outside {Milan, Genoa}: what sev.LaunchDigest did BEFORE the product check
 
-The property quantifies over the supported products, and so does `C04_digest_eq_spec`.  sev.LaunchDigest itself
-does not refuse other values of the enum (`bitWidth[product]` reads 0 for a missing key): the theorems below say
-exactly what it does.  Reachability: the CLI flag `--snp_product` is parsed by go-sev-guest's
-`kds.ParseProductLine`, which accepts "Turin" (enum value 3) besides "Milan" and "Genoa"; `sev.UnsignedSnp` and
-`endorse` pass the value on unchecked.  See the builder report / DESIGN for the classification. -/
+`C04_digest_eq_spec` and `C04_rejects_unsupported_product` are about the code as repaired (the product-check fix).  The
+theorems of this section are about the model variant `launchDigestOld` — the same measurement without the
+product check, i.e. sev.LaunchDigest as it was — and record the defect: `bitWidth[product]` read 0 for a missing
+key, `ProductHighAddress` was 0 and the range arithmetic wrapped.  Reachability: the CLI flag `--snp_product` is
+parsed by go-sev-guest's `kds.ParseProductLine`, which accepts "Turin" (enum value 3) besides "Milan" and
+"Genoa"; `sev.UnsignedSnp` and `endorse` pass the value on unchecked. -/
 
-/-- sev.LaunchDigest for EVERY product value and every image up to 4 GiB: it returns `d` exactly when the image
-    parses, the ROM range and every section range pass the code's alignment and range checks evaluated in uint64
-    at `high = ProductHighAddress(product)`, the metadata is valid with known kinds — and `d` is the digest chain
-    with all VMSA pages at `high`. -/
-theorem C04_any_product_behaviour (H : Bytes → Bytes) (hH : ∀ x, (H x).length = 48) (o : Opts) (fw : Bytes)
+/-- The pre-repair sev.LaunchDigest for EVERY product value and every image up to 4 GiB: it returned `d` exactly
+    when the image parses, the ROM range and every section range pass the code's alignment and range checks
+    evaluated in uint64 at `high = ProductHighAddress(product)`, the metadata is valid with known kinds — and `d`
+    is the digest chain with all VMSA pages at `high`. -/
+theorem C04_old_any_product_behaviour (H : Bytes → Bytes) (hH : ∀ x, (H x).length = 48) (o : Opts) (fw : Bytes)
     (hfw : fw.length ≤ 2 ^ 32) (d : Bytes) :
-    launchDigest H genCfg o fw = .ok d ↔
+    launchDigestOld H genCfg o fw = .ok d ↔
       ∃ rb secs, SnpAnyProduct.AcceptsAt (productHigh (genCfg.width o.product)) o fw rb secs ∧
         d = SnpAnyProduct.chainAt H fw (secs.map toSpec) rb.addr o.vcpus.toNat (productHigh (genCfg.width o.product)) :=
-  SnpAnyProduct.launchDigest_any H hH genCfg C04_cfg_is_spec o fw hfw d
+  SnpAnyProduct.launchDigestOld_any H hH genCfg C04_cfg_is_spec o fw hfw d
 
-/-- a product that is not a key of `bitWidth` has width 0 and `ProductHighAddress` 0 -/
-theorem C04_unsupported_product_width (product : Nat) (hp : product ≠ 1 ∧ product ≠ 2) :
+/-- a product that is not a key of `bitWidth` has width 0 and `ProductHighAddress` 0 (still true of the exported
+    sev.ProductHighAddress, which LaunchDigest no longer reaches for such a product) -/
+theorem C04_old_unsupported_product_width (product : Nat) (hp : product ≠ 1 ∧ product ≠ 2) :
     genCfg.width product = 0 ∧ productHigh (genCfg.width product) = 0 ∧ Spec.SnpLaunch.productHigh 0 = 0 := by
   rw [SnpExample.genWidth_zero product hp]
   exact ⟨rfl, by decide, by decide⟩
 
-/-- **What happens for an unsupported product** (UNKNOWN = 0, Turin = 3, any other number), images up to 4 GiB:
-    the product is not refused.  A digest is returned exactly for the images `Accepts` describes whose ROM has at
+/-- **What happened for an unsupported product** (UNKNOWN = 0, Turin = 3, any other number), images up to 4 GiB:
+    the product was not refused.  A digest was returned exactly for the images `Accepts` describes whose ROM has at
     least two pages and whose every metadata range has at least two pages or starts at address 0 (the range check
     `gpa > 0 + 0x1000 − len` wraps around 2^64 for `len > 0x1000`, and reads `gpa > 0` for one page); that digest
     is the chain with every VMSA page at guest-physical address 0 — `snpSpec` for "address width 0" — which is the
-    launch digest of no AMD product.  All other images are refused (`C04_unsupported_product_witness`: a one-page
-    range above address 0 gives "address range is larger than the product can represent"). -/
-theorem C04_unsupported_product_behaviour (H : Bytes → Bytes) (hH : ∀ x, (H x).length = 48) (o : Opts)
+    launch digest of no AMD product.  All other images were refused (`C04_old_unsupported_product_witness`: a
+    one-page range above address 0 gave "address range is larger than the product can represent"). -/
+theorem C04_old_unsupported_product_behaviour (H : Bytes → Bytes) (hH : ∀ x, (H x).length = 48) (o : Opts)
     (hp : o.product ≠ 1 ∧ o.product ≠ 2) (fw : Bytes) (hfw : fw.length ≤ 2 ^ 32) (d : Bytes) :
-    launchDigest H genCfg o fw = .ok d ↔
+    launchDigestOld H genCfg o fw = .ok d ↔
       ∃ rb secs, Accepts o fw rb secs ∧ 0x2000 ≤ fw.length ∧ (∀ s ∈ secs, 0x2000 ≤ s.length ∨ s.address = 0) ∧
         d = Spec.SnpLaunch.snpSpec H fw (secs.map toSpec) rb.addr o.vcpus.toNat 0 :=
-  SnpAnyProduct.launchDigest_width_zero H hH genCfg C04_cfg_is_spec o (SnpExample.genWidth_zero _ hp) fw hfw d
+  SnpAnyProduct.launchDigestOld_width_zero H hH genCfg C04_cfg_is_spec o (SnpExample.genWidth_zero _ hp) fw hfw d
 
 open GceTcb.SevExample in
 /-- Concrete witnesses, kernel-evaluated (Model/SevExample.lean): (1) `wideFw`, 8 KiB, secrets / CPUID / SVSM
-    ranges of two pages: measured for every unsupported product, VMSA pages at GPA 0 — on Milan the same image has
-    them at 0xFFFFFFFFF000; (2) the 4 KiB example image: refused at the ROM; (3) `twoPageFw`, 8 KiB with the
-    example's one-page secrets and CPUID ranges (what OVMF declares): refused at the first section. -/
-theorem C04_unsupported_product_witness (H : Bytes → Bytes) (hH : ∀ x, (H x).length = 48) (o : Opts)
+    ranges of two pages: the pre-repair code measured it for every unsupported product, VMSA pages at GPA 0 — on
+    Milan the same image has them at 0xFFFFFFFFF000 (old and repaired code alike); (2) the 4 KiB example image: was
+    refused at the ROM; (3) `twoPageFw`, 8 KiB with the example's one-page secrets and CPUID ranges (what OVMF
+    declares): was refused at the first section, both with the range error; (4) the repaired code refuses all
+    three for the product itself. -/
+theorem C04_old_unsupported_product_witness (H : Bytes → Bytes) (hH : ∀ x, (H x).length = 48) (o : Opts)
     (hp : o.product ≠ 1 ∧ o.product ≠ 2) (hv : 1 ≤ o.vcpus) :
-    launchDigest H genCfg o wideFw = .ok (Spec.SnpLaunch.snpSpec H wideFw (wideSecs.map toSpec) 0x80B004 o.vcpus.toNat 0) ∧
+    launchDigestOld H genCfg o wideFw = .ok (Spec.SnpLaunch.snpSpec H wideFw (wideSecs.map toSpec) 0x80B004 o.vcpus.toNat 0) ∧
     (Spec.SnpLaunch.vmsaPages 0x80B004 o.vcpus.toNat (Spec.SnpLaunch.productHigh 0)).map (·.gpa) =
       List.replicate (1 + (o.vcpus.toNat - 1)) 0 ∧
     launchDigest H genCfg ⟨o.vcpus, 1⟩ wideFw =
       .ok (Spec.SnpLaunch.snpSpec H wideFw (wideSecs.map toSpec) 0x80B004 o.vcpus.toNat 48) ∧
     (Spec.SnpLaunch.vmsaPages 0x80B004 o.vcpus.toNat (Spec.SnpLaunch.productHigh 48)).map (·.gpa) =
       List.replicate (1 + (o.vcpus.toNat - 1)) 0xFFFFFFFFF000 ∧
-    launchDigest H genCfg o exFw = .err "range" ∧
-    launchDigest H genCfg o twoPageFw = .err "range" := by
+    launchDigestOld H genCfg o exFw = .err "range" ∧
+    launchDigestOld H genCfg o twoPageFw = .err "range" ∧
+    launchDigest H genCfg o wideFw = .err "product" ∧ launchDigest H genCfg o exFw = .err "product" ∧
+    launchDigest H genCfg o twoPageFw = .err "product" := by
   refine ⟨SnpExample.wide_digest_unsupported H hH C04_cfg_is_spec o hp hv, ?_,
     SnpExample.wide_digest_supported H hH C04_cfg_is_spec ⟨o.vcpus, 1⟩ (Or.inl rfl) hv, ?_,
-    SnpExample.ex_unsupported_rejected H o hp hv, SnpExample.twoPage_unsupported_rejected H hH o hp hv⟩
+    SnpExample.ex_unsupported_rejected H o hp hv, SnpExample.twoPage_unsupported_rejected H hH o hp hv,
+    C04_rejects_unsupported_product H o hp hv _, C04_rejects_unsupported_product H o hp hv _,
+    C04_rejects_unsupported_product H o hp hv _⟩
   · simp [Spec.SnpLaunch.vmsaPages, Spec.SnpLaunch.vmsaPage, Spec.SnpLaunch.productHigh, List.replicate_succ,
       Nat.add_comm 1]
   · simp [Spec.SnpLaunch.vmsaPages, Spec.SnpLaunch.vmsaPage, Spec.SnpLaunch.productHigh, List.replicate_succ,
       Nat.add_comm 1]
+
+/-- why that digest is the launch digest of no supported product, stated on the hash inputs: the VMSA pages of
+    the chain for "width 0" sit at guest-physical address 0, those of Milan and Genoa at 2^width − 4096, so the
+    page sequences differ for every reset vector and every vCPU count ≥ 1 -/
+theorem C04_old_unsupported_product_gpa_differs (resetAddr vcpus : Nat) (hv : 1 ≤ vcpus) (product : Nat)
+    (hp : product = 1 ∨ product = 2) :
+    Spec.SnpLaunch.vmsaPages resetAddr vcpus (Spec.SnpLaunch.productHigh 0) ≠
+      Spec.SnpLaunch.vmsaPages resetAddr vcpus (Spec.SnpLaunch.productHigh (genCfg.width product)) := by
+  intro h
+  have h0 : Spec.SnpLaunch.productHigh 0 = 0 := by decide
+  have hw : Spec.SnpLaunch.productHigh (genCfg.width product) ≠ 0 := by
+    rcases hp with rfl | rfl <;> decide
+  have := congrArg (fun l => (l.map (·.gpa)).head?) h
+  obtain ⟨n, rfl⟩ : ∃ n, vcpus = n + 1 := ⟨vcpus - 1, by omega⟩
+  simp [Spec.SnpLaunch.vmsaPages, Spec.SnpLaunch.vmsaPage, h0] at this
+  exact hw this.symm
+
+/-- sev.UnsignedSnp inherits the refusal: with well-formed ids, any requested VMSA count and any image, an
+    unsupported product yields the product error (every requested count is ≥ 1, so the first LaunchDigest
+    reaches the product check) — no `Measurements` map is ever built for such a product -/
+theorem C04_unsigned_snp_rejects_unsupported_product (H : Bytes → Bytes) (launchVmsas product : Nat)
+    (hp : product ≠ 1 ∧ product ≠ 2) (fw : Bytes) :
+    unsignedSnp H genCfg Gen.SevLayout.VmsaCounts true true launchVmsas product fw = .err "product" := by
+  unfold unsignedSnp
+  simp only [Bool.not_true, Bool.false_eq_true, if_false]
+  have hfirst : ∃ n rest, vmsaCounts Gen.SevLayout.VmsaCounts launchVmsas = n :: rest ∧ 1 ≤ n := by
+    unfold vmsaCounts
+    by_cases h0 : launchVmsas = 0
+    · rw [if_pos h0]; exact ⟨1, Gen.SevLayout.VmsaCounts.tail, by decide, by decide⟩
+    · rw [if_neg h0]; exact ⟨launchVmsas, [], rfl, by omega⟩
+  obtain ⟨n, rest, hc, hn⟩ := hfirst
+  rw [hc, generateLDs, C04_rejects_unsupported_product H ⟨(n : Nat), product⟩ hp (by simp; omega) fw]
 
 /-! ## non-vacuity -/
 
@@ -429,9 +500,17 @@ example (H : Bytes → Bytes) (hH : ∀ x, (H x).length = 48) : ∃ d, launchDig
   ⟨_, C04_example_digest H hH ⟨1, 1⟩ (Or.inl rfl) (by decide)⟩
 example (H : Bytes → Bytes) (hH : ∀ x, (H x).length = 48) : ∃ d, launchDigest H genCfg ⟨4, 2⟩ SevExample.exFw = .ok d :=
   ⟨_, C04_example_digest H hH ⟨4, 2⟩ (Or.inr rfl) (by decide)⟩
--- unsupported product values exist in the enum: UNKNOWN = 0 and Turin = 3 (accepted by the `--snp_product` flag)
-example (H : Bytes → Bytes) (hH : ∀ x, (H x).length = 48) : ∃ d, launchDigest H genCfg ⟨4, 3⟩ SevExample.wideFw = .ok d :=
-  ⟨_, (C04_unsupported_product_witness H hH ⟨4, 3⟩ (by decide) (by decide)).1⟩
+-- unsupported product values exist in the enum: UNKNOWN = 0 and Turin = 3 (accepted by the `--snp_product` flag);
+-- the pre-repair variant returned a digest for Turin on `wideFw`, the repaired code refuses it
+example (H : Bytes → Bytes) (hH : ∀ x, (H x).length = 48) : ∃ d, launchDigestOld H genCfg ⟨4, 3⟩ SevExample.wideFw = .ok d :=
+  ⟨_, (C04_old_unsupported_product_witness H hH ⟨4, 3⟩ (by decide) (by decide)).1⟩
+example (H : Bytes → Bytes) : launchDigest H genCfg ⟨4, 3⟩ SevExample.wideFw = .err "product" :=
+  C04_rejects_unsupported_product H ⟨4, 3⟩ (by decide) (by decide) _
+example (H : Bytes → Bytes) : unsignedSnp H genCfg Gen.SevLayout.VmsaCounts true true 0 3 SevExample.wideFw = .err "product" :=
+  C04_unsigned_snp_rejects_unsupported_product H 0 3 (by decide) _
+-- both sides of the total main theorem are inhabited: a digest on Genoa (above), none on product 0 or 3
+example (H : Bytes → Bytes) (d : Bytes) : launchDigest H genCfg ⟨1, 0⟩ SevExample.exFw ≠ .ok d :=
+  C04_no_digest_for_unsupported_product H ⟨1, 0⟩ (by decide) _ d
 -- the sort contract is satisfiable (the model's merge sort meets it), and ties really may come out either way
 example : SnpSections.SortsBy SnpSections.startLt (fun l => l.mergeSort startLe) := SnpSections.mergeSort_sortsBy
 example : overlapSorted [⟨0x1000, 0x1000, 1⟩, ⟨0x1000, 0x2000, 2⟩] = true ∧ overlapSorted [⟨0x1000, 0x2000, 2⟩, ⟨0x1000, 0x1000, 1⟩] = true :=
